@@ -421,6 +421,8 @@ def main():
         log("UNDECIDED property=%s reason=no-pairs" % prop)
         sys.exit(2)
     os.makedirs(os.path.join(BUILD, prop), exist_ok=True)
+    if not only:
+        shutil.rmtree(os.path.join(VERIF, "replay", prop), ignore_errors=True)
     # heavy pairs first
     order = sorted(pairs, key=lambda p: -p.get("timeout", 120))
     with ThreadPoolExecutor(max_workers=jobs) as ex:
